@@ -1777,6 +1777,16 @@ class Executor:
                 for st2 in self.dict_put(st, owner_, args[0], args[1]):
                     yield st2, None
                 return
+            if mname_ == "setdefault" and 1 <= len(args) <= 2 and not kwargs:
+                default = args[1] if len(args) == 2 else None
+                for st2, val in self.getitem(owner_, args[0], st):
+                    if isinstance(val, Exc) and val.type_name == "KeyError":
+                        # on this path the key equals none of the existing keys (the lookup excluded every coincidence): plain insertion
+                        st2.tr(owner_)[_hashable(st2.tr(args[0]))] = st2.tr(default)
+                        yield st2, st2.tr(default)
+                    else:
+                        yield st2, val
+                return
             if mname_ in {"pop", "setdefault", "__delitem__", "update", "popitem"}:
                 raise Unsupported(f"dict.{mname_} on a dict whose keys may coincide symbolically")
         concrete = not any(_has_sym(a) for a in args) and not any(_has_sym(v) for v in kwargs.values())
